@@ -36,19 +36,21 @@ import traceback
 from mc import core, explorer
 
 NEEDS_BRIDGEPOINT = False
-BUDGET_S = {'quick': 240, 'thorough': 2400}
+BUDGET_S = {'quick': 300, 'thorough': 3000}
 ASSUMPTIONS = [
     'one fresh xtuml.ModelLoader per enumerated input; build_metamodel is called with xtuml.IntegerGenerator()',
     'texts are python str objects fed to ModelLoader.input (the file routes add only open()/read())',
     '"loader content" is ModelLoader.statements: number, classes and all fields of the statement objects (deep snapshot); '
     'identity of the list object is not part of the statement',
-    'bounded time: no input may keep the loader busy for more than 2 s (siblings take about 1 ms), confirmed twice alone '
-    'in a fresh process; applied to every input of every family, the pumped family (d) is where super-linear scanning shows',
+    'bounded time: no input may keep its process busy for more than 2 s of CPU time (siblings take about 1 ms) after 2 s '
+    'of silence, confirmed twice alone in a fresh process (CPU time, so that a loaded machine cannot produce an alarm); '
+    'applied to every input of every family, the pumped family (d) is where super-linear scanning shows',
     'what a successful build contains is C01/C03; here only the class of the outcome and, for histories, equality with '
     'the build of a fresh loader fed the accepted texts only',
 ]
 
-TIME_BUDGET = 2.0          # seconds of silence of a child = the current input exceeded the budget
+TIME_BUDGET = 2.0          # CPU seconds one input may keep its process busy (its siblings take about 1 ms)
+WALL_LIMIT = 90.0          # seconds of silence without CPU consumption (a blocked child) after which it is killed too
 MAX_RESTARTS = 4           # per batch
 
 
@@ -94,7 +96,9 @@ def lexemes(seed):
 
 
 # kinds that cannot matter within the first five tokens of any statement are left out at the deepest length
-DEEP_DROP = ('TO', 'PHRASE', 'TRUE', 'FALSE', 'CARDINALITY')
+DEEP_DROP = {4: ('TO', 'PHRASE', 'TRUE', 'FALSE', 'CARDINALITY'),
+             # no value can be legal within the first five tokens of a statement: NUMBER and STRING stand for all of them
+             5: ('TO', 'PHRASE', 'TRUE', 'FALSE', 'CARDINALITY', 'FRACTION', 'GUID', 'MINUS')}
 
 
 # ---------------------------------------------------------------------------
@@ -260,6 +264,28 @@ def build_outcome(ctx, loader, case, what):
     return ('ok', xtuml.serialize(m))
 
 
+def reference_input(pool, accepted, idx):
+    '''Whether pool[idx] is accepted by a fresh loader that was fed the accepted texts only (no rejected call ever).'''
+    import xtuml
+    key = ('input', tuple(accepted), idx)
+    if key not in _REF_CACHE:
+        ref = xtuml.ModelLoader()
+        try:
+            for i in accepted:
+                ref.input(pool[i])
+            try:
+                ref.input(pool[idx])
+                res = True
+            except xtuml.ParsingException:
+                res = False
+        except core.Timeout:
+            raise
+        except BaseException:
+            res = None                     # reported where it happens in the history itself
+        _REF_CACHE[key] = res
+    return _REF_CACHE[key]
+
+
 def exec_history(ctx, pool, hist, seed=0):
     '''hist: list of [text index, build afterwards (0/1)].'''
     import xtuml
@@ -271,7 +297,7 @@ def exec_history(ctx, pool, hist, seed=0):
     nontrivial = False
     for step, (idx, build) in enumerate(hist):
         text = pool[idx]
-        expect_ok = idx < 3
+        expect_ok = reference_input(pool, accepted, idx)
         before = snap(loader)
         ctx.count('input_calls')
         try:
@@ -287,12 +313,14 @@ def exec_history(ctx, pool, hist, seed=0):
                           'returns or raises xtuml.ParsingException', type(e).__name__,
                           unit_test=unit_test_history(case))
             return
-        if ok != expect_ok:
+        if expect_ok is not None and ok != expect_ok:
             ctx.violation('c12:history:input-outcome-differs', case,
-                          'history %s: input #%d (pool text %d) was %s here but %s by a fresh loader' %
-                          (hist, step, idx, 'accepted' if ok else 'rejected', 'accepted' if expect_ok else 'rejected'),
+                          'history %s: input #%d (pool text %d) was %s here but %s by a fresh loader fed only the accepted '
+                          'texts %s before it' % (hist, step, idx, 'accepted' if ok else 'rejected',
+                                                  'accepted' if expect_ok else 'rejected', accepted),
                           expect_ok, ok, unit_test=unit_test_history(case))
             return
+        ctx.count('input_outcomes_compared')
         if not ok:
             saw_reject = True
             after = snap(loader)
@@ -374,6 +402,8 @@ def base_configs(tier):
             out.append({name: a})
     if tier == 'thorough':
         for (n1, a1), (n2, a2) in itertools.combinations(DIMS, 2):
+            if n1 == 'card' and n2 != 'phrase':
+                continue                   # cardinalities are paired with the phrase forms only
             for x in a1:
                 for y in a2:
                     out.append({n1: x, n2: y})
@@ -652,7 +682,8 @@ def pump_tasks(tier, seed):
     for pi in range(len(PUMP_PREFIXES)):
         for ci in range(len(chars)):
             if tier == 'thorough':
-                tasks.append(('d', pi, ci, (1, 2, 3), tuple(PUMP_N)))
+                tasks.append(('d', pi, ci, (1, 2), tuple(PUMP_N)))
+                tasks.append(('d', pi, ci, (3,), (16, 32)))
             else:
                 tasks.append(('d', pi, ci, (1, 2), (16, 48)))
                 if pi < 4:
@@ -706,8 +737,8 @@ def statement_pool(seed):
 
 def bounds_for(tier):
     if tier == 'thorough':
-        return dict(string_len=4, token_len=4, token_len_deep=5, stmt_len=4, hist_len=5)
-    return dict(string_len=3, token_len=3, token_len_deep=4, stmt_len=3, hist_len=4)
+        return dict(string_len=4, token_len=4, token_len_deep=5, stmt_len=4, hist_len=4, hist_len_uniform=5)
+    return dict(string_len=3, token_len=3, token_len_deep=4, stmt_len=3, hist_len=4, hist_len_uniform=None)
 
 
 class Space(object):
@@ -720,7 +751,8 @@ class Space(object):
         self.charset = set(self.chars)
         self.lex = lexemes(seed)
         self.lexset = set(l for _, l in self.lex)
-        self.deep = [l for k, l in self.lex if k not in DEEP_DROP]
+        self.deep_drop = DEEP_DROP[self.b['token_len_deep']]
+        self.deep = [l for k, l in self.lex if k not in self.deep_drop]
         self.deepset = set(self.deep)
         self.stmts = statement_pool(seed)
         self.pool = history_pool(seed)
@@ -810,6 +842,14 @@ class Space(object):
             for n in range(2, self.b['hist_len'] + 1):
                 for rest in itertools.product(range(12), repeat=n - 2):
                     yield ('h', head + [[o // 2, o % 2] for o in rest])
+            n = self.b['hist_len_uniform']
+            if n and head[0][1] == head[1][1]:
+                # one level deeper with the two uniform build placements: after every input / after the last only
+                every = head[0][1]
+                for rest in itertools.product(range(6), repeat=n - 2):
+                    h = [[head[0][0], every], [head[1][0], every]] + [[i, every] for i in rest]
+                    h[-1][1] = 1
+                    yield ('h', h)
         else:
             raise ValueError(task)
 
@@ -827,9 +867,23 @@ def exec_item(c, space, item):
         exec_history(c, space.pool, item[1], space.seed)
     elif item[0] == 'sleep':
         # watchdog self-test: a deliberately silent child must be killed and confirmed
-        import time
-        time.sleep(TIME_BUDGET * 20)
+        n = 0
+        while n < 10 ** 10:
+            n += 1
         c.count('selftest_not_killed')
+
+
+_TICK = float(os.sysconf('SC_CLK_TCK'))
+
+
+def child_cpu(pid):
+    '''CPU seconds (user + system) consumed so far by a live child, None if it is gone.'''
+    try:
+        with open('/proc/%d/stat' % pid, 'rb') as f:
+            rest = f.read().rsplit(b')', 1)[1].split()
+        return (int(rest[11]) + int(rest[12])) / _TICK
+    except (OSError, IndexError, ValueError):
+        return None
 
 
 def _send(fd, code, payload=b''):
@@ -870,12 +924,25 @@ def child_run(ctx, space, items, skip=()):
     buf = b''
     current = None
     result = None
+    mark, waited = None, 0.0
     try:
         while True:
             ready, _, _ = select.select([r], [], [], TIME_BUDGET)
             if not ready:
-                result = ('stuck', current)
-                break
+                # silent for TIME_BUDGET seconds of wall time. On a loaded machine that may be starvation, so the
+                # verdict is taken on the CPU time the child burns from here on without announcing another input.
+                cpu = child_cpu(pid)
+                if cpu is None:
+                    result = ('died', current)
+                    break
+                if mark is None:
+                    mark, waited = cpu, 0.0
+                waited += TIME_BUDGET
+                if cpu - mark >= TIME_BUDGET or waited >= WALL_LIMIT:
+                    result = ('stuck', current)
+                    break
+                continue
+            mark = None
             chunk = os.read(r, 1 << 16)
             if not chunk:
                 result = ('died', current)
@@ -941,8 +1008,8 @@ def report_slow(ctx, space, item):
     if slow == 2:
         what = short(item[2]) if item[0] == 't' else repr(item[1])
         ctx.violation('c12:time', item_case(item, 'time'),
-                      'loading %s did not finish within %.0f s (twice, alone, in a fresh process)' % (what, TIME_BUDGET),
-                      'finishes within %.0f s' % TIME_BUDGET, 'killed after %.0f s, twice' % TIME_BUDGET,
+                      'loading %s kept the process busy for more than %.0f s of CPU time (twice, alone, in a fresh process)' %
+                      (what, TIME_BUDGET), 'finishes within %.0f s' % TIME_BUDGET, 'killed after more than %.0f s, twice' % TIME_BUDGET,
                       unit_test=('import xtuml\nxtuml.ModelLoader().input(%r)   # does not return in bounded time' % item[2])
                       if item[0] == 't' else None)
     elif died == 2:
@@ -964,7 +1031,11 @@ def run_items(ctx, space, items):
             return
         i = res[1]
         if i is None:
-            raise core.HarnessError('C12 child made no progress at all')
+            # the child did not even announce its first input (fork starved on a loaded machine): try again
+            restarts += 1
+            if restarts >= MAX_RESTARTS:
+                raise core.HarnessError('C12 child made no progress at all')
+            continue
         report_slow(ctx, space, items[i])
         skip.add(i)
         restarts += 1
@@ -1141,7 +1212,8 @@ def coverage(ctx):
         states=ctx.n('inputs'),
         transitions=ctx.n('input_calls') + ctx.n('build_calls'),
         traces_validated_against_impl=ctx.n('input_calls') + ctx.n('build_calls'),
-        evaluations=ctx.n('input_calls') + ctx.n('build_calls') + ctx.n('rejections_compared') + ctx.n('builds_compared'),
+        evaluations=ctx.n('input_calls') + ctx.n('build_calls') + ctx.n('rejections_compared') + ctx.n('builds_compared') +
+        ctx.n('input_outcomes_compared'),
         distinct_nontrivial=nontrivial,
         distinct_outcomes=ctx.nd('outcomes'),
         rule='states = distinct input texts (distinct by construction inside families a and b, by hash across c, d, e and '
@@ -1162,16 +1234,19 @@ def coverage(ctx):
         bounds=dict(
             a='all strings of length 0..%d over %d characters' % (b['string_len'], len(space.chars)),
             b='all token sequences of length 1..%d over %d token kinds (one lexeme each)' % (b['token_len'], len(space.lex)) +
-              ('; length %d over %d kinds (without %s)' % (b['token_len_deep'], len(space.deep), ', '.join(DEEP_DROP))
+              ('; length %d over %d kinds (without %s)' % (b['token_len_deep'], len(space.deep), ', '.join(space.deep_drop))
                if b['token_len_deep'] else ''),
             c='%d valid base files (default + %s of the dimensions %s); per file every token deletion, duplication, adjacent '
               'swap, 8 lexical-class flips of every value, every truncation' %
-              (len(space.configs), 'one or two departures' if ctx.thorough else 'one departure', [d for d, _ in DIMS]),
+              (len(space.configs), 'one or two departures (cardinality pairs are combined with the phrase forms only)'
+               if ctx.thorough else 'one departure', [d for d, _ in DIMS]),
             d='prefix + unit^n: %d prefixes, units of %s over the alphabet, n in %s' %
-              (len(PUMP_PREFIXES), '1..3 characters' if ctx.thorough else '1..2 characters (n in 16, 48) and of 3 characters '
-               '(4 prefixes, n = 32)', PUMP_N if ctx.thorough else '(see units)'),
+              (len(PUMP_PREFIXES), '1..2 characters (n in 16, 24, 32, 48) and of 3 characters (n in 16, 32)' if ctx.thorough
+               else '1..2 characters (n in 16, 48) and of 3 characters (4 prefixes, n = 32)', '(see units)'),
             e='all sequences of 1..%d statements over a pool of %d well-formed statements' % (b['stmt_len'], len(space.stmts)),
-            histories='all sequences of 1..%d input calls over 3 accepted + 3 rejected texts, every placement of builds' % b['hist_len'],
+            histories='all sequences of 1..%d input calls over 3 accepted + 3 rejected texts, every placement of builds' % b['hist_len'] +
+                      ('; all sequences of %d input calls with a build after every input / after the last input only' %
+                       b['hist_len_uniform'] if b['hist_len_uniform'] else ''),
         ),
         exhaustive=not ctx.caps_hit,
     )
